@@ -595,6 +595,18 @@ func runC05(c *fw.Ctx) {
 		return func(k []byte) []byte { return snap[string(k)] }
 	}
 	for v := int64(1); v <= int64(nrounds); v++ {
+		if !big && r.Intn(6) == 0 {
+			// a competing block of the same round is executed and saved first (same parent state, same version) and then
+			// superseded: its nodes and its dead-node record must not endanger the block that stays
+			ag := lab.CopyContent(grave)
+			ard, _ := genRound(c, g, v, cur, ag)
+			c.Tracef("competing block, saved and then superseded: %s", ard.String())
+			if _, _, aerr := execRound(pndb, root, ard); aerr != nil {
+				fail("competing block at v%d failed without any fault injected: %v", v, aerr)
+				return
+			}
+			c.Count("competing_blocks_saved_at_the_same_version", 1)
+		}
 		rd, next := genRound(c, g, v, cur, grave)
 		if big { // make rounds fat so that dead nodes accumulate
 			for k := 0; k < 6; k++ {
@@ -833,7 +845,7 @@ func init() {
 	fw.Register(&fw.Prop{
 		ID:    "C05",
 		Level: "fault_enumeration",
-		Rule: "(The block trie's dead list is read between transactions as well as at the end; a prune that fails before its first write is followed, on the same store object, by a prune below a lower version, after which every root not below that version must be readable.) same round generator as C04 (4..12 rounds; thorough adds 60-round histories whose prune issues several delete batches). After each round: the dead sets reported by this and every earlier round must be disjoint from the node set reachable from the new root " +
+		Rule: "(One round in six is preceded by a competing block of the same version - executed, saved and recorded from the same parent state, then superseded by the block that stays. The block trie's dead list is read between transactions as well as at the end; a prune that fails before its first write is followed, on the same store object, by a prune below a lower version, after which every root not below that version must be readable.) same round generator as C04 (4..12 rounds; thorough adds 60-round histories whose prune issues several delete batches). After each round: the dead sets reported by this and every earlier round must be disjoint from the node set reachable from the new root " +
 			"(reachability computed by the harness from raw stored bytes). At random points PruneBelowVersion(v) with random v: from the stand-in's write log every node key deleted must be in the union of dead sets of rounds < v, no node is written, records < v are gone and records >= v remain, " +
 			"every root saved at a version >= v is completely readable. For EVERY prefix i=0..W of the prune's write stream: crash after i writes, restart, retained roots readable, re-run prune, retained roots readable, records < v gone. " +
 			"non-trivial/distinct = distinct (history, round, prune version, crash index) points",
@@ -844,7 +856,7 @@ func init() {
 			return 3200
 		},
 		Run:    runC05,
-		Floors: map[string]int64{"histories": 3000, "rounds": 15000, "prunes": 3000, "crash_points": 8000, "dead_vs_reach_checks": 50000, "nodes_pruned": 5000, "dead_nodes_reported": 20000, "max:prune_stream_writes": 2, "lower_prunes_after_a_failed_prune": 800},
+		Floors: map[string]int64{"histories": 3000, "rounds": 15000, "prunes": 3000, "crash_points": 8000, "dead_vs_reach_checks": 50000, "nodes_pruned": 5000, "dead_nodes_reported": 20000, "max:prune_stream_writes": 2, "lower_prunes_after_a_failed_prune": 800, "competing_blocks_saved_at_the_same_version": 2500},
 		Assumptions: []string{
 			"same storage model as C04 (atomic batches, completed writes survive a process crash)",
 			"GetDeletes() of the block trie is the round's dead set, recorded under the round's version as the node does it",
